@@ -207,6 +207,55 @@ def dec_float(v):
 
 
 # --------------------------------------------------------------------------
+# Digest twins: different inputs with the same cheap digest
+# --------------------------------------------------------------------------
+HASH_TWINS = ((0.5009765625, 0.0009765625000000002),
+              (0.50146484375, 0.0014648437500000002))
+# hash(a) == hash(b) for each pair (CPython's numeric hash is the value modulo
+# 2**61 - 1), both inside (0, 1): what `hash(args)` used as a cache key confuses
+
+
+def crc32_twin(values, i, j):
+  """A float64 series != values with the same zlib.crc32 of its bytes.
+
+  Element i gets one mantissa bit flipped, the low four bytes of element j (a
+  relative change below 1e-6) are then chosen so that the CRC-32 of the whole
+  little-endian buffer is what it was: what a checksum used as identity
+  confuses.  Pure function of its arguments.
+  """
+  import struct  # pylint: disable=g-import-not-at-top
+  import zlib  # pylint: disable=g-import-not-at-top
+  buf = bytearray(struct.pack('<%dd' % len(values), *values))
+  target = zlib.crc32(bytes(buf))
+  buf[8 * i + 2] ^= 0x10
+  pos = 8 * j
+  # CRC register needed after the four patch bytes so that the suffix leads to
+  # `target`: run the CRC backwards over the suffix
+  poly = 0xEDB88320
+  table = []
+  for n in range(256):
+    c = n
+    for _ in range(8):
+      c = (c >> 1) ^ poly if c & 1 else c >> 1
+    table.append(c)
+  rev = {table[n] >> 24: n for n in range(256)}
+  def backward(reg, data):
+    for byte in reversed(data):
+      idx = rev[reg >> 24]
+      reg = ((reg ^ table[idx]) << 8) & 0xFFFFFFFF | (idx ^ byte)
+    return reg
+  want = backward(target ^ 0xFFFFFFFF, bytes(buf[pos + 4:]))
+  have = zlib.crc32(bytes(buf[:pos])) ^ 0xFFFFFFFF
+  # four bytes taking register `have` to register `want`
+  patch = backward(want, b'\0\0\0\0') ^ have
+  buf[pos:pos + 4] = struct.pack('<I', patch & 0xFFFFFFFF)
+  out = list(struct.unpack('<%dd' % len(values), bytes(buf)))
+  if zlib.crc32(bytes(buf)) != target or out == list(values):
+    return None
+  return out
+
+
+# --------------------------------------------------------------------------
 # Canonical form of answers: bit-exact, order-free, type-tolerant
 # --------------------------------------------------------------------------
 def _sort_key(c):
